@@ -368,6 +368,13 @@ partial def handleIO (op : String) (args : List String) (impl : Option (List Str
         PredHdr.c06_ok Sha.zckHash f opened && PredHdr.c07_ok Sha.zckHash f t d n typeFirst opened
       return (stageStr st, pv)
     | _, _, _ => return ("BADOP", none)
+  | "OPENLATE", [path, n] =>     -- the length pin announced after the lead was read: no effect on the outcome
+    let f ← readFile path
+    let st := Pin.openSeq Sha.zckHash f none none none true false
+    let neg := match n.toInt? with | some v => decide (v < 0) | none => false
+    let st := if st != .lead && neg then Pin.Stage.optLen else st
+    let pv := impl.map fun i => PredHdr.c06_ok Sha.zckHash f (i == ["OK"])
+    return (stageStr st, pv)
   | "OPENM", [path, pos, v] =>
     let f ← readFile path
     match pos.toNat?, parseHex v with
